@@ -33,6 +33,9 @@ type concSpec struct {
 	Rounds   int
 	ProbeRow int   // the row callback (mod row count) that asks the probe
 	Spin     []int // busy-wait units before each round of the probing reader, cycled
+	// Link: the other handles open the file under another name ("hard": a
+	// hard link, "sym": a symbolic link); it is the same file all the same
+	Link string `json:",omitempty"`
 }
 
 func TestC06Concurrent(t *testing.T) {
@@ -47,6 +50,7 @@ func TestC06Concurrent(t *testing.T) {
 				Rounds:   rapid.SampledFrom([]int{200, 500, 1000}).Draw(t, "rounds"),
 				ProbeRow: rapid.IntRange(0, 39).Draw(t, "proberow"),
 				Spin:     rapid.SliceOfN(rapid.IntRange(0, 4000), 1, 16).Draw(t, "spin"),
+				Link:     rapid.SampledFrom([]string{"", "", "hard", "sym"}).Draw(t, "link"),
 			}
 		},
 		Run: runConcurrent,
@@ -102,8 +106,25 @@ func runConcurrent(r *vt.Run, t vt.TB, s concSpec) {
 	var churnErr atomic.Value
 	starts := make([]chan int, s.Churners)
 	done := make(chan struct{}, s.Churners)
+	otherName := path
+	switch s.Link {
+	case "hard":
+		otherName = path + ".hardlink"
+		os.Remove(otherName)
+		if err := os.Link(path, otherName); err != nil {
+			r.Harness(t, "link: %v", err)
+		}
+		defer os.Remove(otherName)
+	case "sym":
+		otherName = path + ".symlink"
+		os.Remove(otherName)
+		if err := os.Symlink(path, otherName); err != nil {
+			r.Harness(t, "symlink: %v", err)
+		}
+		defer os.Remove(otherName)
+	}
 	for i := 0; i < s.Churners; i++ {
-		db, err := sqlittle.Open(path)
+		db, err := sqlittle.Open(otherName)
 		if err != nil {
 			r.Harness(t, "open: %v", err)
 		}
@@ -156,7 +177,7 @@ func runConcurrent(r *vt.Run, t vt.TB, s concSpec) {
 	}
 	wg.Wait()
 	prober.Close()
-	r.Case(s, probes > 0 && atomic.LoadInt64(&churned) > 0, fmt.Sprintf("concurrent:procs=%d", s.Procs), fmt.Sprintf("concurrent:churners=%d", s.Churners))
+	r.Case(s, probes > 0 && atomic.LoadInt64(&churned) > 0, fmt.Sprintf("concurrent:procs=%d", s.Procs), fmt.Sprintf("concurrent:churners=%d", s.Churners), "concurrent:other-name="+s.Link)
 	r.Count("concurrent:probes-inside-callbacks", probes)
 	r.Count("concurrent:reads-by-other-handles", int(atomic.LoadInt64(&churned)))
 	if harnessErr != nil {
